@@ -126,7 +126,8 @@ func cmdIsolate(args []string) error {
 		for r, p := range plan {
 			beat()
 			events = append(events, vlib.M{"e": "start", "run": r + 1, "obj": p.kind})
-			it := code.RunWithContext(newGuardCtx(0, 200000, time.Second), p.v, vals...)
+			ctx := newGuardCtx(0, 200000, time.Second)
+			it := code.RunWithContext(ctx, p.v, vals...)
 			emitted := []any{}
 			for len(emitted) < 40 {
 				v, ok := it.Next()
@@ -134,6 +135,10 @@ func cmdIsolate(args []string) error {
 					break
 				}
 				if err, ok := v.(error); ok {
+					if ctx.budget {
+						// a budget of the harness (polls, wall clock, process heap) ended this run, not the library: the history is outside the claim
+						rec["budget"] = true
+					}
 					events = append(events, vlib.M{"e": "error", "run": r + 1, "msg": fmt.Sprintf("%T", err)})
 					break
 				}
